@@ -5,6 +5,7 @@ From Coq Require Import List NArith ZArith Bool Arith.
 Import ListNotations.
 From PV Require Import Regex Base UnicodeTables LexTables PyRepr Lexer AstDefs AstSpec AstImpl NodeModel ParserTables ParserBase ParserDecl ParserMain ClimbProofs CppArgs.
 From PV Require Generator.
+From PV Require Import PyEval PyEvalTree.
 Open Scope N_scope.
 
 Definition US : N := 31.  (* field separator *)
@@ -317,6 +318,14 @@ Definition roundtrip_ok (rp: bool) (text: str) : bool :=
   | None => false
   end.
 
+(* eval of a repr text: the evaluator of PyEvalTree.v, result shown canonically (coords are None) *)
+Definition api_eval_repr (req: list N) : str :=
+  let (text, _) := rd_str req in
+  match pyeval (coord pos) RFUEL text with
+  | Some v => show_ast RFUEL true v
+  | None => s2l "EVALFAIL"
+  end.
+
 Definition handle (req: list N) : str :=
   match req with
   | 1 :: r => api_lex r
@@ -331,5 +340,6 @@ Definition handle (req: list N) : str :=
   | 12 :: r => api_show r
   | 13 :: r => api_repr_node r
   | 14 :: r => api_visit r
+  | 15 :: r => api_eval_repr r
   | _ => s2l "BADREQ"
   end.
